@@ -17,6 +17,9 @@ FRONT_MATTERS = [
 # characters JSON has to escape, in every text position; empty collections in the standard keys
 ESCAPES = ['@tart tin{1%9"}\n', '@baking paper{2%12" sheets}(the "good" one)\n', '@a\\b{1%c\\d}\n', '>> title: say "hi"\n@x{some "text"}\n',
            '@tab\there{1}\n', '~"rest"{5%min}\n', '#"pan"|big "pan"{}\n', '= "Prep" =\n> a "quoted" note\n']
+# amounts beyond the integers a JSON library may reach for
+HUGE = ["@sand{10000000000000000000%grains}\n", "@x{30000000000000000000} and @y{20000000000000000000-40000000000000000000}\n",
+        "@z{18446744073709551616%things} ~{9223372036854775808%blinks}\n", "@w{0.00000000000000000001%motes}\n"]
 EMPTIES = ["---\nservings: []\n---\n@a{1}\n", "---\nserves: []\n---\nstep\n", "---\nyield: []\ntags: []\n---\nstep\n",
            "---\nservings: [2]\ntags: [a]\nauthor: {}\ntime: {}\n---\nstep\n", "---\nk: []\nj: {}\nn: ''\n---\nstep\n"]
 REFERENCES = ["@./sauce{2%cups}\n", "@../x/y{1}\n", "@./a/b/c{}\n", "@@./tomato sauce{2%cups} and @&./tomato sauce{1%cup}\n", "@.\\win\\path{}\n"]
@@ -42,6 +45,7 @@ def check_c15(ctx):
     recs += [dict(text=t, extbits=3818, conv="bundled", tag="reference") for t in REFERENCES]
     recs += [dict(text=t, extbits=3818, conv="bundled", tag="escapes") for t in ESCAPES]
     recs += [dict(text=t, extbits=3818, conv="bundled", tag="empties") for t in EMPTIES]
+    recs += [dict(text=t, extbits=3818, conv="bundled", tag="huge") for t in HUGE]
     recs += [dict(text=t["text"], extbits=3818, conv="bundled", tag="repo") for t in repo_corpus()]
     recs += fraction_docs()
     pin = os.path.join(ctx.work, "sd_in.ndjson")
